@@ -26,6 +26,8 @@ type Obligation struct {
 	Text  string
 	Quant bool
 	Entry *entryInfo
+	Projected bool    // Model comes from the quantifier-free projection (candidate only)
+	ProjHyps  []*Term
 
 	// filled by the solver stage
 	Status  string // discharged | failed | unknown
@@ -89,6 +91,8 @@ type Exec struct {
 	pkg      *packages.Package
 	fn       *types.Func
 	decl     *ast.FuncDecl
+	lit      *ast.FuncLit // non-nil: the unit under verification is this function literal of decl
+	litOrd   int
 	contract *Contract
 	nm       namer
 	cells    map[types.Object]*Cell
@@ -113,6 +117,8 @@ type Exec struct {
 	escaped     []Outcome
 	covers      []*Obligation
 	entryInf    *entryInfo
+	litParams   map[string]*Cell
+	lazyCaptures bool
 	boxedPtrs   map[string]PtrVal
 	boxedVals   map[string]Value
 }
@@ -132,7 +138,13 @@ func newExec(prog *Program, pk *packages.Package, fn *types.Func, decl *ast.Func
 	return e
 }
 
-func (e *Exec) funcName() string { return e.pkg.Types.Name() + "." + funcKey(e.fn) }
+func (e *Exec) funcName() string {
+	n := e.pkg.Types.Name() + "." + funcKey(e.fn)
+	if e.lit != nil {
+		n += fmt.Sprintf("$%d", e.litOrd)
+	}
+	return n
+}
 
 func (e *Exec) top() *frame { return e.frames[len(e.frames)-1] }
 
@@ -172,6 +184,21 @@ func (e *Exec) oblige(st *State, kind, label string, goal *Term, n ast.Node, tag
 		return
 	}
 	if st.dead {
+		return
+	}
+	// conjuncts that are literally among the hypotheses need no proof
+	if goal.Op == "and" {
+		var rest []*Term
+		for _, c := range goal.Args {
+			if !st.pcset[c.String()] {
+				rest = append(rest, c)
+			}
+		}
+		goal = mkAnd(rest...)
+		if goal.isTrue() {
+			return
+		}
+	} else if st.pcset[goal.String()] {
 		return
 	}
 	base := fmt.Sprintf("%s#%s:%s", e.funcName(), kind, label)
@@ -229,11 +256,26 @@ type FuncResult struct {
 	Covers      []*Obligation
 }
 
-func (prog *Program) verifyFunc(fn *types.Func) (res *FuncResult) {
+type target struct {
+	fn  *types.Func
+	lit int
+}
+
+func (prog *Program) verifyFunc(tg target) (res *FuncResult) {
+	fn := tg.fn
 	pk := prog.declPkg[fn]
 	decl := prog.decls[fn]
 	c := prog.contractFor(fn)
+	var lit *ast.FuncLit
+	if tg.lit > 0 {
+		lit = prog.funcLitByOrdinal(decl, tg.lit)
+		if lit == nil {
+			panic(ContractError{fmt.Sprintf("function literal %s$%d not found", funcKey(fn), tg.lit)})
+		}
+		c, _ = prog.closureContract(lit)
+	}
 	e := newExec(prog, pk, fn, decl, c)
+	e.lit, e.litOrd = lit, tg.lit
 	res = &FuncResult{Name: e.funcName()}
 	if c != nil && c.Trusted {
 		res.Trusted = true
@@ -265,7 +307,11 @@ func (prog *Program) verifyFunc(fn *types.Func) (res *FuncResult) {
 	if decl.Body == nil {
 		panic(unsupported("function without body"))
 	}
-	e.run()
+	if lit != nil {
+		e.runLit()
+	} else {
+		e.run()
+	}
 	res.Obls = e.obls
 	res.Covers = e.covers
 	return res
@@ -311,6 +357,9 @@ func (e *Exec) run() {
 	e.entry = st.clone()
 	// lets and preconditions
 	if e.contract != nil {
+		for _, a := range e.contract.Anys {
+			e.lets[a.Name] = wrapTerm(e.nm.fresh("any!"+a.Name, specSort(a.Type)))
+		}
 		env := e.funcEnv(st, e.entry)
 		for _, l := range e.contract.Lets {
 			env.what = e.funcName() + " let " + l.Name
@@ -335,6 +384,59 @@ func (e *Exec) run() {
 	}
 }
 
+// runLit verifies a function literal against its contract "Decl$k". Captured variables are bound
+// lazily to unconstrained values of their types.
+func (e *Exec) runLit() {
+	st := newState()
+	sig := e.pkg.TypesInfo.TypeOf(e.lit).(*types.Signature)
+	fr := &frame{id: 0, sig: sig, pkg: e.pkg, fnName: e.funcName(), decl: e.decl}
+	e.frames = []*frame{fr}
+	st.assume(mkGe(st.ghostVar(allocGhost, SInt), tZero))
+	e.entryInf = nil
+	e.litParams = map[string]*Cell{}
+	i := 0
+	for _, fld := range e.lit.Type.Params.List {
+		for _, nm := range fld.Names {
+			obj := e.pkg.TypesInfo.Defs[nm]
+			c := e.cellFor(obj)
+			st.store[c] = e.symbolicValue(st, obj.Type(), nm.Name)
+			n := nm.Name
+			if e.contract != nil && i < len(e.contract.Params) {
+				n = e.contract.Params[i]
+			}
+			e.litParams[n] = c
+			i++
+		}
+	}
+	for k := 0; k < sig.Results().Len(); k++ {
+		rv := sig.Results().At(k)
+		var c *Cell
+		if rv.Name() != "" && rv.Name() != "_" {
+			c = e.cellFor(rv)
+		} else {
+			c = e.newCell(fmt.Sprintf("ret%d", k), rv.Type())
+		}
+		st.store[c] = e.zeroValue(st, rv.Type())
+		fr.results = append(fr.results, c)
+	}
+	e.lazyCaptures = true
+	e.entry = st.clone()
+	if e.contract != nil {
+		env := e.funcEnv(st, e.entry)
+		for _, r := range e.contract.Requires {
+			env.what = e.funcName() + " requires"
+			st.assume(env.evalBool(r.Expr))
+		}
+		e.entry = st.clone()
+	}
+	outs := e.execBlock(st, e.lit.Body.List)
+	for _, o := range outs {
+		if o.ctl == ctlNext {
+			e.doReturn(o.st, nil, e.lit.Body)
+		}
+	}
+}
+
 // funcEnv builds the spec environment of the function under verification in state st.
 func (e *Exec) funcEnv(st, old *State) *SpecEnv {
 	env := &SpecEnv{e: e, st: st, old: old, vars: map[string]Value{}, pkg: e.pkg.Types, what: e.funcName()}
@@ -344,6 +446,12 @@ func (e *Exec) funcEnv(st, old *State) *SpecEnv {
 	fr := e.frames[0]
 	sig := fr.sig
 	names := e.paramNames(sig, e.contract)
+	if e.lit != nil {
+		names = map[string]*Cell{}
+		for k, c := range e.litParams {
+			names[k] = c
+		}
+	}
 	env.goName = func(name string, s *State) (Value, bool) {
 		if c, ok := names[name]; ok {
 			if v, ok := s.store[c]; ok {
@@ -432,6 +540,19 @@ func (e *Exec) checkPost(st *State, n ast.Node) {
 		return
 	}
 	env := e.funcEnv(st, e.entry)
+	// parameters in postconditions denote their values at entry (they may be reassigned in the body)
+	if e.lit == nil {
+		params := e.paramNames(e.frames[0].sig, e.contract)
+		base := env.goName
+		env.goName = func(name string, s *State) (Value, bool) {
+			if c, ok := params[name]; ok {
+				if v, ok := e.entry.store[c]; ok {
+					return v, true
+				}
+			}
+			return base(name, s)
+		}
+	}
 	for _, en := range e.contract.Ensures {
 		env.what = e.funcName() + " ensures @" + en.Label
 		g := env.evalBool(en.Expr)
@@ -452,12 +573,15 @@ func (e *Exec) checkFrame(st *State, n ast.Node) {
 		}
 	}
 	allowed := map[string][]*Term{} // kind+key -> roots (nil entry: whole family)
+	elems := map[string][][2]*Term{} // mem: (array, element) pairs
 	whole := map[string]bool{}
 	for _, t := range targets {
 		for _, k := range t.keys {
 			id := t.kind + ":" + k.key
 			if t.root == nil {
 				whole[id] = true
+			} else if t.elem != nil {
+				elems[id] = append(elems[id], [2]*Term{t.root, t.elem})
 			} else {
 				allowed[id] = append(allowed[id], t.root)
 			}
@@ -481,8 +605,24 @@ func (e *Exec) checkFrame(st *State, n ast.Node) {
 			e.oblige(st, "frame", key, mkEq(now, was), n, nil)
 			return
 		}
+		for _, pr := range elems[id] {
+			conds = append(conds, mkNe(x, pr[0]))
+		}
 		g := mkForall([]*Term{x}, mkImplies(mkAnd(conds...), mkEq(mkSelect(now, x), mkSelect(was, x))))
 		e.oblige(st, "frame", key, g, n, nil)
+		// arrays with single-element permissions: every other element is unchanged
+		for _, pr := range elems[id] {
+			y := mkVar("y!frame", SInt)
+			var cs []*Term
+			for _, q := range elems[id] {
+				cs = append(cs, mkOr(mkNe(pr[0], q[0]), mkNe(y, q[1])))
+			}
+			for _, r := range allowed[id] {
+				cs = append(cs, mkNe(pr[0], r))
+			}
+			g2 := mkForall([]*Term{y}, mkImplies(mkAnd(cs...), mkEq(mkSelect(mkSelect(now, pr[0]), y), mkSelect(mkSelect(was, pr[0]), y))))
+			e.oblige(st, "frame", key+"[elem]", g2, n, nil)
+		}
 	}
 	for k, now := range st.heap {
 		check("heap", k, now, e.entry.heapMap(k, now.Sort.Elem))
@@ -779,6 +919,7 @@ func (e *Exec) execAssign(st *State, x *ast.AssignStmt) []Outcome {
 		return one(st)
 	}
 	assignTo := func(s *State, lhs ast.Expr, v Value) {
+		v = e.nameValue(s, v, lhs)
 		if id, ok := lhs.(*ast.Ident); ok {
 			if id.Name == "_" {
 				return
@@ -1112,4 +1253,41 @@ func (e *Exec) execDeferred(st *State, d *deferred) []Outcome {
 	}
 	e.callResolved(st, d.call, d.recv, d.args, true)
 	return one(st)
+}
+
+func termSize(t *Term, limit int) int {
+	n := 1
+	for _, a := range t.Args {
+		if n > limit {
+			return n
+		}
+		n += termSize(a, limit-n)
+	}
+	return n
+}
+
+// nameValue replaces a large scalar term by a fresh constant defined equal to it (keeps queries
+// small and models readable).
+func (e *Exec) nameValue(st *State, v Value, lhs ast.Expr) Value {
+	s, ok := v.(Scalar)
+	if !ok || s.T.Sort.Kind != KInt && s.T.Sort.Kind != KBool {
+		if sv, isS := v.(SliceVal); isS {
+			return SliceVal{Arr: sv.Arr, Off: e.nameTerm(st, sv.Off, "off"), Len: e.nameTerm(st, sv.Len, "len"), Cap: e.nameTerm(st, sv.Cap, "cap"), Typ: sv.Typ}
+		}
+		return v
+	}
+	base := "v"
+	if id, ok := lhs.(*ast.Ident); ok {
+		base = id.Name
+	}
+	return Scalar{e.nameTerm(st, s.T, base), s.Typ}
+}
+
+func (e *Exec) nameTerm(st *State, t *Term, base string) *Term {
+	if termSize(t, 12) <= 12 {
+		return t
+	}
+	c := e.nm.fresh(base, t.Sort)
+	st.assume(mkEq(c, t))
+	return c
 }
